@@ -224,3 +224,40 @@ def rwa_cases(ck, qr, numpy, scipy):
         ck.case(("rwa", H.tobytes(), nt, dt, nref), nontrivial=True, kind="rwa")
         if dev > bound:
             ck.fail("rwa:equivalence", "RWA dynamics converted back differs from laboratory-frame dynamics beyond the bound", inp, dev, bound)
+        # conversion to the rotating frame and back is the identity on the stored evolution
+        try:
+            back = numpy.array(ev.data).copy()
+            ev.convert_to_RWA(hr)
+            ev.convert_from_RWA(hr)
+            if numpy.abs(numpy.array(ev.data) - back).max() > 1e-12:
+                ck.fail("rwa:roundtrip", "convert_to_RWA followed by convert_from_RWA changes the stored evolution", inp,
+                        float(numpy.abs(numpy.array(ev.data) - back).max()))
+        except Exception as e:
+            ck.fail("raises:rwa:roundtrip", "RWA round trip raised %r" % (e,), inp)
+        # the same for state vectors, and the density matrices built from them
+        try:
+            from quantarhei import StateVector
+            from quantarhei.qm import StateVectorPropagator
+            _, psi0 = SY.rand_state(numpy, rng, n, pure=True)
+            if psi0 is not None:
+                sv_lab = StateVectorPropagator(ta, Hamiltonian(data=H.copy()))
+                sv_lab.setDtRefinement(nref)
+                p_lab = numpy.array(sv_lab.propagate(StateVector(data=psi0.copy())).data)
+                sv_r = StateVectorPropagator(ta, hr)
+                sv_r.setDtRefinement(nref)
+                pe = sv_r.propagate(StateVector(data=psi0.copy()))
+                pe.convert_from_RWA(hr)
+                p_rwa = numpy.array(pe.data)
+                xs = float(numpy.linalg.norm(H * dt / nref, 2))
+                bsv = 2 * SY.trunc_bound(xs, 4, (nt - 1) * nref) + 1e-9
+                dsv = float(numpy.abs(p_lab - p_rwa).max())
+                ck.case(("rwa-sv", H.tobytes(), nt, dt, nref), nontrivial=True, kind="rwa-statevector")
+                if dsv > bsv:
+                    ck.fail("rwa:statevector", "state-vector dynamics in the rotating frame converted back differs from the laboratory-frame "
+                            "dynamics beyond the bound", inp, dsv, bsv)
+                dm = numpy.array(pe.get_DensityMatrixEvolution().data)
+                want = numpy.einsum("ti,tj->tij", p_rwa, p_rwa.conj())
+                if numpy.abs(dm - want).max() > 1e-12:
+                    ck.fail("sv:density-matrix", "get_DensityMatrixEvolution is not |psi(t)><psi(t)|", inp, float(numpy.abs(dm - want).max()))
+        except Exception as e:
+            ck.fail("raises:rwa:statevector", "state-vector RWA propagation raised %r" % (e,), inp)
